@@ -7,9 +7,9 @@ import (
 // Weights bias exploration only; in a replay every enabled action is addressable by index.
 type Weights struct {
 	Reply, ReplyErr, Emit, AdvEvent, Advance, ExtWrite, Stall, ConnDrop, ReplyBurst int
-	Ack, AckSkip, AckStale, Park, Unpark                                int
-	Close, Crash, Commit, Scrape, API, Publish, Persist, Failover       int
-	EndStream                                                           int
+	Ack, AckSkip, AckStale, Park, Unpark                                            int
+	Close, Crash, Commit, Scrape, API, Publish, Persist, Failover                   int
+	EndStream                                                                       int
 }
 
 // Cfg is the configuration of one run: drawn from the tape (swarm), so a replay file needs nothing else.
